@@ -10,6 +10,8 @@
 //	             is interpreted over the real StateDB with real transactions and hashes; monitor:
 //	             accepted <=> the block's ETXs are the next items of (queue ++ parent inbound) and
 //	             the minimum/maximum inclusion rule holds (stated independently here).
+//	(d) region:  see region.go -- the real Slice.CollectNewlyConfirmedEtxs / HeaderChain.CollectSubRollup on a
+//	             region node fed random region chains; forward-simulation monitor of exactly-once delivery.
 //	(c) routing: the real types.Transactions.FilterToSub / FilterToLocation on every
 //	             (address byte, ETX type) for all contexts/orders and a family of slices; monitor:
 //	             every in-hierarchy destination is selected by exactly one subordinate filter.
@@ -1403,7 +1405,8 @@ func main() {
 	logger = hlib.QuietLogs()
 	rep = hlib.NewReport("C04", "cases: (queue) push/pop/read/commit/copy histories on the real StateDB ETX queue started at boundary indices; "+
 		"(block) the ETX discipline of Process as read from the current source, interpreted over the real StateDB for blocks whose ETX section is a prefix / permuted / duplicated / unknown / altered / too long list with counts and gas around the inclusion window; "+
-		"(route) FilterToSub/FilterToLocation on all 256x6 (address byte, ETX type). non-trivial = queue history with at least one pushed and one successfully popped item, every block case, every routing case that selects something; distinct by (kind, shape, sub-seed)")
+		"(route) FilterToSub/FilterToLocation on all 256x6 (address byte, ETX type); "+
+		"(region) random region chains (2-3 zones, 5-12 region blocks, prime-order blocks at random positions, forks, 0-3 zone blocks between coincident blocks, ETXs of all 7 types to zones of the region / absent zones / other regions, prime inbound sets incl. returning coinbase/conversion ETXs) on a region node made of the real HeaderChain: the real CollectNewlyConfirmedEtxs / CollectSubRollup for every block. non-trivial = queue history with at least one pushed and one successfully popped item, every block case, every routing case that selects something, every region chain on which at least one ETX is due at some block; distinct by (kind, shape, sub-seed)")
 	repo := os.Getenv("VERIF_REPO")
 	if repo == "" {
 		repo = "/repo"
@@ -1439,6 +1442,10 @@ func main() {
 			runChain(d, cw)
 		case "e2e":
 			runE2E(d, cw, 200000+1000*int(d.Sub%97))
+		case "region":
+			runRegion(d, cw)
+		case "prime":
+			runPrime(d, cw)
 		case "route":
 			if d.Shape == "rand" {
 				runRouteRand(d, cw)
@@ -1473,6 +1480,16 @@ func main() {
 	for i := 0; i < 8; i++ {
 		runE2E(Desc{ID: 200000 + 1000*i, Kind: "e2e", Shape: "plan", Sub: uint64(i)}, cw, 200000+1000*i)
 	}
+	for i, s := range regionShapes[:len(regionShapes)-1] {
+		for j := 0; j < 4; j++ {
+			runRegion(next("region", s, uint64(4000+10*i+j)), cw)
+		}
+	}
+	for i, s := range primeShapes[:len(primeShapes)-1] {
+		for j := 0; j < 3; j++ {
+			runPrime(next("prime", s, uint64(5000+10*i+j)), cw)
+		}
+	}
 	routeAll(cw, nil)
 	id += 1000
 	routeMonitor()
@@ -1491,6 +1508,12 @@ func main() {
 	}
 	for i := 0; i < f.N/4+5; i++ {
 		runRouteRand(next("route", "rand", rng.Next()), cw)
+	}
+	for i := 0; i < f.N/2+10; i++ {
+		runRegion(next("region", regionShapes[rng.Intn(len(regionShapes))], rng.Next()), cw)
+	}
+	for i := 0; i < f.N/4+5; i++ {
+		runPrime(next("prime", primeShapes[rng.Intn(len(primeShapes))], rng.Next()), cw)
 	}
 	cw.Close()
 	rep.Exhaustive = false
